@@ -13,6 +13,7 @@
 package interp
 
 import (
+	"sort"
 	"fmt"
 	"go/token"
 	"go/types"
@@ -25,12 +26,50 @@ type kvEntry struct {
 	key []value
 	val value  // []value or *blob
 	ver uint64 // commit version that wrote the entry (Badger's item version)
+	ck  string // the key as a string when every byte of it is concrete
+	cc  bool   // ck is valid
 }
 
 type kvWrite struct {
 	key []value
 	val value
 	del bool
+	ck  string
+	cc  bool
+}
+
+func mkWrite(key []value, val value, del bool) kvWrite {
+	ck, cc := concKey(key)
+	return kvWrite{key: key, val: val, del: del, ck: ck, cc: cc}
+}
+
+// concKey returns the key as a string if all its bytes are concrete.
+func concKey(k []value) (string, bool) {
+	b := make([]byte, len(k))
+	for i, c := range k {
+		cb, ok := c.(uint8)
+		if !ok {
+			return "", false
+		}
+		b[i] = cb
+	}
+	return string(b), true
+}
+
+// allConcrete reports whether every entry has a concrete key (then the slice
+// is sorted by ck and can be searched and merged without the solver).
+func allConcrete(ents []kvEntry) bool {
+	for k := range ents {
+		if !ents[k].cc {
+			return false
+		}
+	}
+	return true
+}
+
+// searchConc: index of the first entry with key >= ck in an all-concrete slice.
+func searchConc(ents []kvEntry, ck string) int {
+	return sort.Search(len(ents), func(i int) bool { return ents[i].ck >= ck })
 }
 
 type kvDisk struct {
@@ -43,6 +82,10 @@ type kvDisk struct {
 type kvDB struct {
 	disk   *kvDisk
 	closed bool
+	// badger's transaction limits (db.go: maxBatchSize = 15% of MemTableSize,
+	// maxBatchCount = maxBatchSize / skl.MaxNodeSize (96)); a transaction reaching
+	// either gets ErrTxnTooBig from Set/Delete (txn.go checkSize)
+	maxBatchCount, maxBatchSize int64
 }
 
 type kvTxn struct {
@@ -53,6 +96,13 @@ type kvTxn struct {
 	discarded bool
 	done      bool
 	iters     int
+	// cached: every key of snap is concrete
+	snapConc, snapChecked bool
+	// cached merged view for iterators of an update transaction
+	view  []kvEntry
+	viewN int
+	// badger's per-transaction accounting (checkSize)
+	count, size int64
 }
 
 type kvIter struct {
@@ -64,6 +114,8 @@ type kvIter struct {
 	prefix  []value
 	closed  bool
 	started bool
+	// cached: every key of ents is concrete
+	conc, concChecked bool
 }
 
 type kvItem struct {
@@ -156,6 +208,42 @@ func (p *pathState) applyWrites(ents []kvEntry, ws []kvWrite) []kvEntry {
 }
 
 func (p *pathState) applyWritesV(ents []kvEntry, ws []kvWrite, ver uint64) []kvEntry {
+	// fast path: concrete keys everywhere — merge two sorted lists (the last write of a key wins)
+	concWrites := true
+	for k := range ws {
+		if !ws[k].cc {
+			concWrites = false
+			break
+		}
+	}
+	if concWrites && len(ents)+len(ws) > 8 && allConcrete(ents) {
+		last := make(map[string]int, len(ws))
+		for k := range ws {
+			last[ws[k].ck] = k
+		}
+		order := make([]int, 0, len(last))
+		for _, k := range last {
+			order = append(order, k)
+		}
+		sort.Slice(order, func(a, b int) bool { return ws[order[a]].ck < ws[order[b]].ck })
+		out := make([]kvEntry, 0, len(ents)+len(order))
+		i := 0
+		for _, k := range order {
+			w := ws[k]
+			for i < len(ents) && ents[i].ck < w.ck {
+				out = append(out, ents[i])
+				i++
+			}
+			if i < len(ents) && ents[i].ck == w.ck {
+				i++ // replaced or deleted
+			}
+			if !w.del {
+				out = append(out, kvEntry{key: w.key, val: w.val, ver: ver, ck: w.ck, cc: true})
+			}
+		}
+		out = append(out, ents[i:]...)
+		return out
+	}
 	out := append([]kvEntry(nil), ents...)
 	for _, w := range ws {
 		// find first index with key >= w.key
@@ -167,7 +255,7 @@ func (p *pathState) applyWritesV(ents []kvEntry, ws []kvWrite, ver uint64) []kvE
 			if w.del {
 				out = append(out[:i:i], out[i+1:]...)
 			} else {
-				out[i] = kvEntry{w.key, w.val, ver}
+				out[i] = kvEntry{key: w.key, val: w.val, ver: ver, ck: w.ck, cc: w.cc}
 			}
 			continue
 		}
@@ -176,7 +264,7 @@ func (p *pathState) applyWritesV(ents []kvEntry, ws []kvWrite, ver uint64) []kvE
 		}
 		n := make([]kvEntry, 0, len(out)+1)
 		n = append(n, out[:i]...)
-		n = append(n, kvEntry{w.key, w.val, ver})
+		n = append(n, kvEntry{key: w.key, val: w.val, ver: ver, ck: w.ck, cc: w.cc})
 		n = append(n, out[i:]...)
 		out = n
 	}
@@ -184,12 +272,32 @@ func (p *pathState) applyWritesV(ents []kvEntry, ws []kvWrite, ver uint64) []kvE
 }
 
 func (t *kvTxn) get(p *pathState, key []value) (kvEntry, bool) {
+	ck, cc := concKey(key)
 	for i := len(t.writes) - 1; i >= 0; i-- {
-		if p.keyEq(t.writes[i].key, key) {
-			if t.writes[i].del {
+		w := &t.writes[i]
+		var eq bool
+		if cc && w.cc {
+			eq = ck == w.ck
+		} else {
+			eq = p.keyEq(w.key, key)
+		}
+		if eq {
+			if w.del {
 				return kvEntry{}, false
 			}
-			return kvEntry{t.writes[i].key, t.writes[i].val, 0}, true
+			return kvEntry{key: w.key, val: w.val, ck: w.ck, cc: w.cc}, true
+		}
+	}
+	if cc && len(t.snap) > 8 {
+		if !t.snapChecked {
+			t.snapConc, t.snapChecked = allConcrete(t.snap), true
+		}
+		if t.snapConc {
+			i := searchConc(t.snap, ck)
+			if i < len(t.snap) && t.snap[i].ck == ck {
+				return t.snap[i], true
+			}
+			return kvEntry{}, false
 		}
 	}
 	for _, e := range t.snap {
@@ -265,6 +373,7 @@ func init() {
 		o[fieldIndex(t, "BlockSize")] = 4096
 		o[fieldIndex(t, "DetectConflicts")] = true
 		o[fieldIndex(t, "NumVersionsToKeep")] = 1
+		o[fieldIndex(t, "MemTableSize")] = int64(64 << 20)
 		return o
 	})
 	B(pfx+"Open", func(fr *frame, args []value) value {
@@ -284,7 +393,12 @@ func init() {
 		}
 		d.open = true
 		p.env.fsMkdir(dir)
-		return tuple{box(&kvDB{disk: d}), iface{}}
+		kd := &kvDB{disk: d}
+		if mts, ok := o[fieldIndex(t, "MemTableSize")].(int64); ok && mts > 0 {
+			kd.maxBatchSize = 15 * mts / 100
+			kd.maxBatchCount = kd.maxBatchSize / 96
+		}
+		return tuple{box(kd), iface{}}
 	})
 	db := func(v value) *kvDB { return unbox(v, "*badger.DB").(*kvDB) }
 	txn := func(v value) *kvTxn { return unbox(v, "*badger.Txn").(*kvTxn) }
@@ -382,7 +496,7 @@ func init() {
 		}
 		num := beUint64(p, e.val)
 		if num == s.leased {
-			t.writes = append(t.writes, kvWrite{key: s.key, val: u64Bytes(s.next)})
+			t.writes = append(t.writes, mkWrite(s.key, u64Bytes(s.next), false))
 		}
 		t.commit(p)
 		s.leased = s.next
@@ -426,7 +540,24 @@ func init() {
 				}
 			}
 		}
-		t.writes = append(t.writes, kvWrite{key: key, val: val, del: del})
+		// txn.go checkSize: count and estimated size (key + value + 2 + 10; values of symbolic
+		// length are counted with their key only)
+		if t.db.maxBatchCount > 0 {
+			sz := int64(len(key)) + 12
+			if bs, ok := val.([]value); ok {
+				sz += int64(len(bs))
+			} else if bl, ok := val.(*blob); ok && bl != nil {
+				if n, ok := bl.length(fr).(int); ok {
+					sz += int64(n)
+				}
+			}
+			if t.count+1 >= t.db.maxBatchCount || t.size+sz >= t.db.maxBatchSize {
+				return badgerErr(fr.i, "ErrTxnTooBig")
+			}
+			t.count, t.size = t.count+1, t.size+sz
+		}
+		ck, cc := concKey(key)
+		t.writes = append(t.writes, kvWrite{key: key, val: val, del: del, ck: ck, cc: cc})
 		return iface{}
 	}
 	M("Txn", "Set", func(fr *frame, args []value) value {
@@ -477,7 +608,11 @@ func init() {
 		}
 		it.ents = t.snap
 		if t.update && len(t.writes) > 0 {
-			it.ents = p.applyWrites(t.snap, t.writes)
+			// the merged view of snapshot and pending writes, reused while no further write is made
+			if t.viewN != len(t.writes) || t.view == nil {
+				t.view, t.viewN = p.applyWrites(t.snap, t.writes), len(t.writes)
+			}
+			it.ents = t.view
 		}
 		it.pos = -1
 		t.iters++
@@ -507,6 +642,23 @@ func init() {
 			}
 			it.valid = it.pos >= 0 && it.pos < n
 			return
+		}
+		// fast path: concrete keys everywhere — binary search
+		if ck, cc := concKey(key); cc && n > 8 {
+			if !it.concChecked {
+				it.conc, it.concChecked = allConcrete(it.ents), true
+			}
+			if it.conc {
+				if !it.reverse {
+					it.pos = searchConc(it.ents, ck)
+					it.valid = it.pos < n
+				} else {
+					// last key <= ck
+					it.pos = sort.Search(n, func(i int) bool { return it.ents[i].ck > ck }) - 1
+					it.valid = it.pos >= 0
+				}
+				return
+			}
 		}
 		if !it.reverse {
 			i := 0
@@ -611,7 +763,7 @@ func (s *kvSeq) updateLease(p *pathState) {
 		s.next = beUint64(p, e.val)
 	}
 	lease := s.next + s.bandwidth
-	t.writes = append(t.writes, kvWrite{key: s.key, val: u64Bytes(lease)})
+	t.writes = append(t.writes, mkWrite(s.key, u64Bytes(lease), false))
 	t.commit(p)
 	s.leased = lease
 }
